@@ -142,23 +142,27 @@ def repaired (m2m owning : Bool) : Cfg := ⟨m2m, owning, true, true⟩
 def asFound (m2m owning : Bool) : Cfg := ⟨m2m, owning, false, false⟩
 
 /-- `C10_count`, the full statement: for every kind of collection, every starting database content and every history of
-    loads, relationship assignments from the other side, `add`, `remove`, `len`, `count()` and flushes made under their
-    callers' guarantees, every `count()` and every `len()` returns the number of items the program has in the collection
-    (= the size of the collection in the database after a flush) -/
+    loads, relationship assignments from the other side, `add`, `remove`, `len`, `count()`, membership tests and flushes made
+    under their callers' guarantees, every `count()` and every `len()` returns the number of items the program has in the
+    collection (= the size of the collection in the database after a flush) and every `item in coll` returns whether the
+    program has the item in it -/
 def C10_count_full (cfg : Cfg) : Prop :=
   ∀ (db : List Item) (ops : List Op), db.Nodup → CallersOk cfg ⟨SetData.new, db⟩ db ops →
     ∀ c l rs, run cfg ⟨SetData.new, db⟩ db ops = .ok (c, l, rs) → ∀ p, p ∈ rs → p.1 = p.2
 
 /-- `C10_count` for every history that stays away from the two defective places (`OpSafe`), for the code as it is and for
-    every kind of collection: the history runs without an internal assertion, every read returns the number of items the
-    program has, and `database count + |added| − |removed|` is that number in every reachable state. -/
+    every kind of collection: the history runs without an internal assertion, every `count()` / `len()` returns the number
+    of items the program has, every membership test — answered from the SetData, from the negative cache `absent`, or by a
+    load — returns membership in what the program has, `database count + |added| − |removed|` is the number of items in every
+    reachable state, and the negative cache never holds an item the program has unless the SetData holds it too. -/
 theorem C10_count_partial (cfg : Cfg) (db : List Item) (hdb : db.Nodup) (ops : List Op)
     (hv : ValidFrom cfg ⟨SetData.new, db⟩ db ops) :
     ∃ c l rs, run cfg ⟨SetData.new, db⟩ db ops = .ok (c, l, rs) ∧ (∀ p, p ∈ rs → p.1 = p.2) ∧
       ((l.length : Int) = c.db.length + c.sd.added.length - c.sd.removed.length) ∧
-      (c.sd.fully = true → c.sd.items.length = l.length) := by
+      (c.sd.fully = true → c.sd.items.length = l.length) ∧
+      (∀ x, x ∈ c.sd.absent → x ∈ l → x ∈ c.sd.items) := by
   obtain ⟨c, l, rs, e, hj, hr⟩ := run_spec cfg ops _ _ (J_init db hdb) hv
-  exact ⟨c, l, rs, e, hr, hj.card, fun hf => length_eq_of_same_members hj.ind hj.lnd (fun a => ⟨hj.itemsSub a, hj.full hf a⟩)⟩
+  exact ⟨c, l, rs, e, hr, hj.card, fun hf => length_eq_of_same_members hj.ind hj.lnd (fun a => ⟨hj.itemsSub a, hj.full hf a⟩), hj.absentOk⟩
 
 /-- with the repairs the callers' guarantees are all that is needed: the full statement holds -/
 theorem C10_count_repaired (m2m owning : Bool) : C10_count_full (repaired m2m owning) := by
@@ -178,6 +182,47 @@ theorem C10_count_repaired (m2m owning : Bool) : C10_count_full (repaired m2m ow
   rw [e] at hrun; cases hrun
   exact hr p hp
 
+/-- `C10_contains_after_add`: for EVERY cache state whatsoever — any SetData, fully loaded or not, whatever the negative cache
+    `absent` holds (in particular when an earlier membership test has recorded the item there), no invariant assumed — after
+    `obj.coll.add(item)` returned, `item in obj.coll` is True: the SetData is consulted before the negative cache. -/
+theorem C10_contains_after_add (cfg : Cfg) (c c' : Coll) (x : Item) (r : Option Int)
+    (h : step cfg c (.add x) = .ok (c', r)) :
+    ∃ c'', step cfg c' (.contains x) = .ok (c'', some 1) ∧ c''.sd = c'.sd := by
+  have hx : x ∈ c'.sd.items := by
+    simp only [step] at h
+    by_cases hi : x ∈ c.sd.items
+    · simp only [hi, if_true] at h; injection h with h; rw [← (Prod.mk.inj h).1]; exact hi
+    · simp only [hi, if_false] at h; injection h with h; rw [← (Prod.mk.inj h).1]
+      simp only [addTail]; split <;> exact mem_ins.mpr (Or.inr rfl)
+  refine ⟨{ c' with sd := (containsSd c' x).1 }, ?_, ?_⟩ <;> simp [step, containsSd, hx, b2i]
+
+/-- the same when the item was linked from the other side (`item.rev.add(obj)` runs `reverse_add` on this SetData) -/
+theorem C10_contains_after_reverse_add (cfg : Cfg) (c c' : Coll) (x : Item) (r : Option Int)
+    (h : step cfg c (.revAdd x) = .ok (c', r)) :
+    ∃ c'', step cfg c' (.contains x) = .ok (c'', some 1) ∧ c''.sd = c'.sd := by
+  have hx : x ∈ c'.sd.items := by
+    simp only [step] at h
+    cases hr : revAdd c.sd x with
+    | error e => rw [hr] at h; simp at h
+    | ok sd =>
+      rw [hr] at h; simp only [Except.ok.injEq, Prod.mk.injEq] at h
+      rw [← h.1]
+      unfold revAdd at hr
+      split at hr
+      · simp at hr
+      · split at hr <;> (injection hr with hr; rw [← hr]; simp)
+  refine ⟨{ c' with sd := (containsSd c' x).1 }, ?_, ?_⟩ <;> simp [step, containsSd, hx, b2i]
+
+/-- the situation of the seeded change c10-2 in the model: a membership test on a collection that is not fully loaded
+    answers False and records the item in `absent`; the item is added; the negative cache STILL holds it, and membership is
+    True nevertheless (before any flush); the flush then empties the negative cache -/
+example : (run (repaired true true) ⟨SetData.new, [1]⟩ [1] [.contains 2, .add 2, .contains 2, .flush, .contains 2]).toOption.map
+    (fun r => (r.1.sd.absent, r.2.2)) = some ([], [(0, 0), (1, 1), (1, 1)]) := by decide
+example : (run (repaired true true) ⟨SetData.new, [1]⟩ [1] [.contains 2, .add 2]).toOption.map (fun r => (r.1.sd.absent, r.1.sd.items))
+    = some ([2], [2]) := by decide
+example : (run (repaired true false) ⟨SetData.new, [1]⟩ [1] [.contains 2, .revAdd 2, .contains 2]).toOption.map (·.2.2)
+    = some [(0, 0), (1, 1)] := by decide
+
 /-- a one-to-many history with `remove`s, on the repaired code: hypotheses satisfiable, reads right -/
 example : CallersOk (repaired false false) ⟨SetData.new, [5]⟩ [5]
     [.add 9, .count, .remove 9, .count, .seen 5, .remove 5, .loadAll, .flush, .count] := by decide
@@ -191,7 +236,7 @@ example : (run (repaired false false) ⟨SetData.new, [5]⟩ [5]
 theorem C10_count_full_false_remove : ¬ C10_count_full (asFound false false) := by
   intro h
   have := h [5] [.add 9, .remove 9, .count] (by decide) (by decide)
-    ⟨⟨[], false, some 0, [], [9]⟩, [5]⟩ [5] [(0, 1)] (by rfl) (0, 1) (by simp)
+    ⟨⟨[], false, some 0, [], [9], []⟩, [5]⟩ [5] [(0, 1)] (by rfl) (0, 1) (by simp)
   simp at this
 
 /-- The code as it is violates the full statement on the side of a many-to-many relationship from which the flush does not
@@ -200,7 +245,7 @@ theorem C10_count_full_false_remove : ¬ C10_count_full (asFound false false) :=
 theorem C10_count_full_false_flush : ¬ C10_count_full (asFound true false) := by
   intro h
   have := h [7] [.seen 7, .revRemove 7, .flush, .count] (by decide) (by decide)
-    ⟨⟨[], false, some (-1), [], [7]⟩, []⟩ [] [(-1, 0)] (by rfl) (-1, 0) (by simp)
+    ⟨⟨[], false, some (-1), [], [7], []⟩, []⟩ [] [(-1, 0)] (by rfl) (-1, 0) (by simp)
   simp at this
 
 end PonyVerif.Props.C10
